@@ -234,6 +234,7 @@ def model_request(case, src=None):
     else:
         n = int(np.ceil(1 + (np.log10(d1) - np.log10(d0)) / case['logd_step']))
         ds = [float(x) for x in np.logspace(np.log10(d0), np.log10(d1), n)]
+        ds[0], ds[-1] = d0, d1
     logds = [float(np.log10(x)) for x in ds]
     models = [[[[F(a), F(f)] for a, f in zip(case['aps'][j], case['flux'][m][j])] for j in range(len(case['wav']))] for m in range(len(case['names']))]
     return ('fit3_pkg', [ext_tab(case['ext']), F(V_UM), [F(w) for w in case['wav']], F(case['av_range'][0]), F(case['av_range'][1]),
@@ -328,6 +329,7 @@ def grid_of(case):
     else:
         n = int(np.ceil(1 + (np.log10(d1) - np.log10(d0)) / case['logd_step']))
         ds = [float(x) for x in np.logspace(np.log10(d0), np.log10(d1), n)]
+        ds[0], ds[-1] = d0, d1          # the grid includes both ends of the requested range (10**log10(d) may be one ulp off)
     return ds, [float(np.log10(x)) for x in ds]
 
 
